@@ -9,7 +9,7 @@ from typing import Any, Callable, Dict, List, Optional, Tuple
 import numpy as np
 
 CONVEX = ["qp", "qp_quartic", "qp_softplus"]
-NONCONVEX = ["rosen", "osc", "styb", "badscale", "bench"]
+NONCONVEX = ["rosen", "osc", "styb", "badscale", "bench", "steep"]
 BOXKINDS = ["none", "both", "lower", "upper", "mixed", "degenerate"]
 
 
@@ -85,6 +85,13 @@ def make_objective(family: str, n: int, rng: np.random.Generator):
         def fun(x): return _sc(np.sum(x ** 2) + 3.0 * np.sum(np.sin(w * x) ** 2))
         def grad(x): return 2 * x + 3.0 * w * np.sin(2 * w * x)
         return fun, grad, False, None
+    if family == "steep":
+        # steep growth, badly scaled: first line-search trials overshoot uphill
+        w = 10 ** rng.uniform(0, 2, n)
+        sh = rng.uniform(-0.5, 0.5, n)
+        def fun(x): return _sc(np.sum(np.cosh(w * (x - sh))))
+        def grad(x): return w * np.sinh(w * (x - sh))
+        return fun, grad, True, None
     if family == "styb":
         from lbfgsb.benchmarks import styblinski_tang, styblinski_tang_grad
         return (lambda x: _sc(styblinski_tang(x))), styblinski_tang_grad, False, None
